@@ -55,3 +55,63 @@ def c06_next(inp, obligation):
         if found is not False:
             bad.append("no object reaches the tolerance but found=%r idx=%r" % (found, idx))
     return bool(bad), {"benefit": ben, "tolerance": tol, "violations": bad}
+
+
+@handler("C06.postprocessing")
+def c06_postprocessing(inp, obligation):
+    """the real refinement_postprocessing on a real dimension-wise strategy object whose containers hold the intervals (levels) of the counter-model.
+    Removal / sorting / rebalancing are no-ops natively (nothing scheduled for removal, intervals already ascending, rebalancing off): the model's values
+    describe the state they leave behind.  dim_adaptive is off so that raise_lmax only raises lmax (the index-set fix-point is C01's)."""
+    import logging
+    from sparseSpACE.spatiallyAdaptiveSingleDimension2 import SpatiallyAdaptiveSingleDimensions2 as K
+    from sparseSpACE.RefinementContainer import RefinementContainer, MetaRefinementContainer
+    from sparseSpACE.RefinementObject import RefinementObjectSingleDimension
+    from sparseSpACE.combiScheme import CombiScheme
+    ndim = int(inp["ndim"])
+    conts = []
+    for c, dd in enumerate(inp["dims"]):
+        n = int(dd["n"])
+        objs = [RefinementObjectSingleDimension(i / max(n, 1), (i + 1) / max(n, 1), c, ndim, [int(dd["l0"][i]), int(dd["l1"][i])], None, coarsening_level=0, a=0.0, b=1.0)
+                for i in range(n)]
+        conts.append(RefinementContainer(objs, 1, None))
+    o = object.__new__(K)
+    o.dim, o.lmax, o.lmin = ndim, [int(x) for x in inp["lmax"]], [1] * ndim
+    o.refinement = MetaRefinementContainer(conts)
+    o.rebalancing, o.dim_adaptive = False, False
+    o.combischeme = CombiScheme(ndim)
+    o.combischeme.init_adaptive_combi_scheme(2, 1)
+    o.log_util = type("L", (), {"log_debug": lambda *a, **k: None, "log_info": lambda *a, **k: None})()
+    o.log = logging.getLogger("replay")
+    K.refinement_postprocessing(o)
+    bad = []
+    for c, cont in enumerate(o.refinement.refinementContainers):
+        for i, r in enumerate(cont.get_objects()):
+            want = o.lmax[c] - max(r.levels)
+            if r.coarsening_level != want:
+                bad.append("dimension %d interval %d: coarsening level %r, lmax - highest end-point level = %r" % (c, i, r.coarsening_level, want))
+            if r.coarsening_level < 0:
+                bad.append("dimension %d interval %d: negative coarsening level %r" % (c, i, r.coarsening_level))
+            if o.lmax[c] < max(r.levels):
+                bad.append("dimension %d: lmax %r below the deepest level %r" % (c, o.lmax[c], max(r.levels)))
+    if bad:
+        return True, {"lmax_after": list(o.lmax), "violations": bad[:8]}
+    # The model's state does not fail natively (the refuted path needs an abstract step -- rebalancing -- to change levels at a particular moment).
+    # Focused native search of the same clauses on the real function: the fixed anchor histories of the bounded layer (rebalancing rotations that move
+    # a leaf at the maximum level) and a few covering configurations, observed after every refine().
+    from bounded import api, C06 as H, _dimwise_common as C
+    ctx = api.Ctx("C06", "quick", 0, 45.0)
+    cases = list(H.anchor_cases())
+    for case in cases:
+        ctx.case(case)
+        H.run_case(ctx, case)
+    for case in C.covering_cases(ctx.rng, True):
+        if ctx.out_of_time(0.9) or any(v["clause"].startswith("B.coarsen") for v in ctx.violations):
+            break
+        ctx.case(case)
+        H.run_case(ctx, case)
+    hits = [v for v in ctx.violations if v["clause"] in ("B.coarsen.value", "B.coarsen.lmax")]
+    if hits:
+        v = hits[0]
+        return True, {"note": "the counter-model's state itself does not fail natively; a focused native search of the same clause on the real function found a failing history",
+                      "history": v["case"], "violations": [v["message"][:600]]}
+    return False, {"lmax_after": list(o.lmax), "violations": [], "focused_search_cases": ctx.evaluations}
